@@ -212,6 +212,9 @@ class Intervals:
         p = op['p']
         if not p['p']:
             return self.refine(p['l'], self.local(p['l'], stack), bb)
+        lv = self.loop_var(op, stack)
+        if lv is not None:
+            return self.refine_term(op, lv, bb)
         # projection: tuple field of a checked op -> handled in rvalue users; else type range
         if len(p['p']) == 1 and p['p'][0]['k'] == 'field':
             base_defs = self.r.defs.get(p['l'], [])
@@ -219,13 +222,77 @@ class Intervals:
                     base_defs[0][2]['op'].endswith('WithOverflow'):
                 rv = base_defs[0][2]
                 if p['p'][0]['i'] == 0:
-                    v = arith(rv['op'], self.operand(rv['a'], stack), self.operand(rv['b'], stack))
+                    dbb = base_defs[0][3]
+                    v = arith(rv['op'], self.operand(rv['a'], stack, dbb), self.operand(rv['b'], stack, dbb))
+                    if rv['op'].startswith('Sub') and v is not None:
+                        rs = self.relational_sub(rv, stack, dbb)
+                        if rs is not None:
+                            v = (max(v[0], rs[0]), min(v[1], rs[1]))
                     tr = ty_range(p['ty'])
                     if v is not None and tr is not None and tr[0] <= v[0] and v[1] <= tr[1]:
                         return v
                     return tr
                 return (0, 1)
         return ty_range(p['ty'])
+
+    def range_of_loopvar(self, term, stack):
+        """(lo, hi, start_term, end_term) for a term next(into_iter(Range{start,end}))"""
+        from terms import strip_casts
+        t = strip_casts(term)
+        if not (isinstance(t, tuple) and t[0] == 'next'):
+            return None
+        src = q.unwrap_into_iter(t[1])
+        if not (src[0] == 'agg' and src[1] == 'std::ops::Range'):
+            return None
+        # locate the aggregate statement to get typed operands
+        for bi, blk in enumerate(self.body.blocks):
+            for st in blk['stmts']:
+                if st['k'] == 'assign' and st['rv']['k'] == 'agg' and st['rv'].get('adt', '').endswith('ops::Range'):
+                    if self.r.rvalue(st['rv'], (), bi) == src:
+                        a = self.operand(st['rv']['ops'][0], stack, bi)
+                        b = self.operand(st['rv']['ops'][1], stack, bi)
+                        if a is None or b is None:
+                            return None
+                        f = dict(src[3])
+                        return (a[0], max(a[0], b[1] - 1), f['start'], f['end'])
+        return None
+
+    def loop_var(self, op, stack):
+        p = op['p']
+        if not p['p']:
+            return None
+        if [e['k'] for e in p['p']] not in (['downcast', 'field'],):
+            return None
+        t = self.r.operand(op)
+        r_ = self.range_of_loopvar(t, stack)
+        if r_ is None:
+            return None
+        return (r_[0], r_[1])
+
+    def refine_term(self, op, rng, bb):
+        return rng
+
+    def relational_sub(self, rv, stack, bb):
+        """Sub(loop variable of S..E, S) lies in [0, E-S-1]; with E = S + X that is [0, hi(X)-1]"""
+        from terms import strip_casts, casts_on
+        ta = strip_casts(self.r.operand(rv['a']))
+        tb = strip_casts(self.r.operand(rv['b']))
+        r_ = self.range_of_loopvar(ta, stack)
+        if r_ is None:
+            return None
+        lo, hi, S, E = r_
+        if strip_casts(S) != tb:
+            return None
+        Es = strip_casts(E)
+        if Es[0] == 'bin' and Es[1] == 'Add':
+            for x, y in ((Es[2], Es[3]), (Es[3], Es[2])):
+                if strip_casts(x) == tb:
+                    cs, inner = casts_on(y)
+                    if cs:
+                        tr = ty_range(cs[-1][0])
+                        if tr is not None:
+                            return (0, max(0, tr[1] - 1))
+        return (0, max(0, hi - lo)) if hi >= lo else None
 
     def rvalue(self, rv, stack, ty, bb=None):
         k = rv['k']
@@ -242,6 +309,10 @@ class Intervals:
         if k == 'bin':
             a, b = self.operand(rv['a'], stack, bb), self.operand(rv['b'], stack, bb)
             v = arith(rv['op'], a, b)
+            if rv['op'].startswith('Sub'):
+                rs = self.relational_sub(rv, stack, bb)
+                if rs is not None and v is not None:
+                    v = (max(v[0], rs[0]), min(v[1], rs[1]))
             tr = ty_range(ty)
             if rv['op'].endswith('WithOverflow'):
                 return None
